@@ -126,12 +126,12 @@ def run(ctx: vlib.Ctx):
     findings = vlib.load_findings(ctx.prop)
     rng = random.Random(ctx.seed)
     wide = ctx.thorough or ctx.widen > 1
-    texts = TC.token_sequences(3, rng, sample=None if wide else 15000)
+    texts = TC.token_sequences(3, rng, sample=None if wide else 6000)
     if ctx.thorough:
         texts += TC.token_sequences(4, rng, sample=200000)
     planes = [(0x20, 0x7E), (0x0, 0x1F), (0x7F, 0xFF), (0x100, 0x24F), (0x300, 0x36F), (0x2000, 0x206F), (0x2190, 0x22FF), (0x3000, 0x30FF),
               (0xE000, 0xE0FF), (0xFE00, 0xFE0F), (0x1F300, 0x1F64F), (0xE0100, 0xE01EF)]
-    for _ in range(ctx.budget(3000, 40000)):
+    for _ in range(ctx.budget(2000, 40000)):
         k = rng.randint(0, 40)
         s = []
         for _ in range(k):
@@ -144,7 +144,7 @@ def run(ctx: vlib.Ctx):
         texts.append("".join(s))
     corpus = X.corpus_texts()
     texts += corpus
-    for _ in range(ctx.budget(3000, 40000)):
+    for _ in range(ctx.budget(1500, 40000)):
         t = rng.choice(corpus)
         for _ in range(rng.choice([1, 1, 2, 4])):
             t = TC.mutate(t, rng)
@@ -173,7 +173,7 @@ def run(ctx: vlib.Ctx):
                 if mc != r[name] and not (r[name] or "").startswith("FOREIGN") and r[name] != "RecursionError":
                     X.corr(ctx, dict(case, entry=name), "exception class (or none)", mc, r[name])
     # scaling on a deterministic cost
-    base = 60 if not ctx.thorough else 200
+    base = 40 if not ctx.thorough else 200
     rows = [r for ch in vlib.pmap(scaling_chunk, [[(n, base)] for n in FAMILIES], chunksize=1) for r in ch]
     ctx.extra["scaling_cost_line_events"] = rows
     for row in rows:
@@ -204,8 +204,8 @@ def run(ctx: vlib.Ctx):
                 else:
                     ctx.notes.append(f"known finding {f['id']} no longer reproduces on its witness")
         open_ids = {f["id"] for f in findings}
-        sample = rng.sample(texts, min(len(texts), ctx.budget(120, 1500))) + corpus[:10]
-        fails = tt.tools_total_failures(sample, rng, ctx.budget(1200, 20000))
+        sample = rng.sample(texts, min(len(texts), ctx.budget(40, 1500))) + corpus[:4]
+        fails = tt.tools_total_failures(sample, rng, ctx.budget(700, 20000))
         ctx.extra["tool_calls"] = getattr(tt.tools_total_failures, "last_stats", None)
         for fl in fails:
             case = {"tool": fl["tool"], "args": fl["args"], "replay": fl.get("replay")}
